@@ -46,6 +46,8 @@ def instances(tier, seed):
                   {'n': 2, 'kind': 'mix', 'blocks': 2, 'twice': True}, {'n': 2, 'kind': 'dw'}, {'n': 2, 'kind': 'conv', 'stem2': True},
                   # a choice block inside a branch of another choice block
                   {'n': 2, 'kind': 'nested'}, {'n': 2, 'kind': 'nested_last'}, {'n': 3, 'kind': 'nested_last'},
+                  # the selection is frozen (fine-tuning phase) before the export: the winner is still the arg-max of the coefficients
+                  {'n': 3, 'kind': 'conv', 'after': ['train_net_only']}, {'n': 2, 'kind': 'mix', 'blocks': 2, 'after': ['train_net_only']},
                   # blocks declared with Gumbel sampling: in eval mode hard selection must still be a plain one-hot
                   {'n': 2, 'kind': 'conv', 'gumbel': True}, {'n': 3, 'kind': 'seq', 'gumbel': True},
                   # coefficients with a tie for the maximum (e.g. the uniform initialisation): the first maximal branch is the winner
